@@ -188,6 +188,16 @@ func runC03(c *Ctx, si interface{}) {
 		})
 		c.Count("sweep_leaves", int64(n))
 		_ = stop
+		// a stream on which every candidate misses a requirement: whatever comes back must still be valid
+		if bad := firstFailingPath(m, rec, s.Tape.Seed); bad != nil && !stop {
+			var choices []uint32
+			for k := 0; k < spg.MaxTrials+2; k++ {
+				choices = append(choices, bad...)
+			}
+			res := genOp(NewTape(TapeSpec{Mode: "choice", Choices: choices, Default: "zero"}), rec)
+			c.Probe("all_candidates_fail_stream", 1)
+			one(res, "stream on which every candidate misses a requirement")
+		}
 		return
 	}
 	for k := 0; k < s.N; k++ {
@@ -198,4 +208,35 @@ func runC03(c *Ctx, si interface{}) {
 		}
 	}
 	c.Sample(map[string]interface{}{"recipe": s.Cfg.String(), "alphabet_size": len(m.A), "required_sets": len(m.Req)})
+}
+
+// firstFailingPath returns the choice path of a candidate the model rejects (nil if none).
+func firstFailingPath(m *MChar, rec spg.CharRecipe, seed uint64) []uint32 {
+	if len(m.Req) == 0 || m.L < 1 {
+		return nil
+	}
+	pilot := genOp(NewTape(TapeSpec{Mode: "choice", Seed: mix(seed, "ffp"), Default: "random"}), rec)
+	if pilot.Kind != "ok" || len(pilot.Tape.CharLists) == 0 {
+		return nil
+	}
+	pos := map[string]uint32{}
+	for i, ch := range pilot.Tape.CharLists[0] {
+		pos[ch] = uint32(i)
+	}
+	var bad []uint32
+	m.Enumerate(func(cs []string, ok bool) {
+		if ok || bad != nil {
+			return
+		}
+		var p []uint32
+		for _, ch := range cs {
+			i, found := pos[ch]
+			if !found {
+				return
+			}
+			p = append(p, i)
+		}
+		bad = p
+	})
+	return bad
 }
